@@ -12,6 +12,7 @@ pub mod refmac;
 pub mod refregion;
 pub mod script;
 pub mod snapshot;
+pub mod stack;
 pub mod world;
 
 use simcore::*;
